@@ -612,6 +612,13 @@ func runC18(r *mon.Run) {
 				cf, _ := new(big.Int).SetString(gen.Digits(rr, hbase+1700*i), 10)
 				huge = append(huge, br.ToApd(dec.D{Form: dec.Finite, Neg: rr.Bool(), C: cf, E: -rr.Range(0, 3000)}))
 			}
+			// coefficients of tens of thousands of digits (beyond 65536 bits), of
+			// different lengths, for the digit counting and comparison paths
+			var giant []*apd.Decimal
+			for _, n := range []int64{19800 + int64(rr.Intn(300)), 21306 + int64(rr.Intn(3)), 30000 + int64(rr.Intn(9000)), 40000} {
+				cf, _ := new(big.Int).SetString(gen.Digits(rr, n), 10)
+				giant = append(giant, br.ToApd(dec.D{Form: dec.Finite, Neg: rr.Bool(), C: cf, E: -rr.Range(0, 3000)}))
+			}
 			num, den := br.ToApd(dec.FromInt(rr.Range(1, 99), 0)), br.ToApd(dec.FromInt(rr.Range(3, 97)|1, 0))
 			digest := func(d *apd.Decimal) string {
 				s := d.Coeff.String()
@@ -636,6 +643,10 @@ func runC18(r *mon.Run) {
 				case 10:
 					res, _ := hp[j%len(hp)].Mul(&d, huge[i%len(huge)], huge[(i+1)%len(huge)])
 					return digest(&d) + br.FlagNames(res)
+				case 11:
+					g1, g2 := giant[i%len(giant)], giant[(i+j)%len(giant)]
+					res, _ := ctx.Round(&d, g1)
+					return fmt.Sprint(g1.NumDigits(), g1.Cmp(g2), g2.NumDigits(), digest(&d), br.FlagNames(res))
 				case 0:
 					return fmt.Sprint(ops[i].NumDigits())
 				case 1:
@@ -676,7 +687,7 @@ func runC18(r *mon.Run) {
 					for it := 0; it < iters; it++ {
 						k, i, j := gr.Intn(7), gr.Intn(len(ops)), gr.Intn(len(far))
 						if gr.Chance(1, 5) {
-							k = 7 + gr.Intn(4)
+							k = 7 + gr.Intn(5)
 						}
 						recs[g] = append(recs[g], rec{k, i, j, exec(k, i, j)})
 					}
